@@ -235,6 +235,142 @@ impl Prop for C02 {
                 ),
             ));
         }
+        // (d) wide forms: 8-14 consecutive characters listed one by one (as a bracket set and as
+        // an alternation), and single alternations with 17-40 alternatives (keywords, characters,
+        // also as the operands of `#`), written as one flat `a | b | c | …` chain
+        let starts = ['0', 'a', 'A', 'q', 'α', '!'];
+        let kw = proptest::collection::vec(proptest::sample::select(vec!['a', 'b', 'c', 'd', 'e']), 1..=4);
+        for i in 0..tier.pick(100, 500) {
+            let t = sample(&tapes, r);
+            let mut tp = gen::Tape::new(&t);
+            let mut spec = match i % 5 {
+                4 => {
+                    // classes with 33-90 pieces (beyond any size gate of the range maps and of
+                    // the subset construction), united with / followed by a perturbed copy whose
+                    // pieces overlap the original's with different end points
+                    let n = 33 + tp.next(58) as usize;
+                    let long = proptest::collection::vec(any::<u32>(), 400);
+                    let t2 = sample(&long, r);
+                    let mut tp = gen::Tape::new(&t2);
+                    // nine in ten pieces are ranges (single characters become character
+                    // transitions, which do not enter the range maps)
+                    let s1 = {
+                        let mut items = vec![];
+                        let mut x = 0x100 + tp.next(0x300);
+                        for _ in 0..n {
+                            let len = if tp.next(10) == 0 { 0 } else { 1 + tp.next(4) };
+                            let (a, b) = (char::from_u32(x).unwrap_or('a'), char::from_u32(x + len).unwrap_or('a'));
+                            items.push(if len == 0 { SetItem::C(a) } else { SetItem::R(a, b) });
+                            x += len + 2 + tp.next(12);
+                        }
+                        Re::Set(items)
+                    };
+                    let perturbed = match &s1 {
+                        Re::Set(items) => Re::Set(
+                            items
+                                .iter()
+                                .filter_map(|it| {
+                                    let (a, b) = match it {
+                                        SetItem::C(c) => (*c as u32, *c as u32),
+                                        SetItem::R(a, b) => (*a as u32, *b as u32),
+                                    };
+                                    let (a2, b2) = match tp.next(6) {
+                                        0 => return None,
+                                        1 => (a, b + 1),
+                                        2 => (a.saturating_sub(1), b),
+                                        3 if a < b => (a + 1, b),
+                                        4 if a < b => (a, b - 1),
+                                        _ => (a, b),
+                                    };
+                                    match (char::from_u32(a2), char::from_u32(b2)) {
+                                        (Some(x), Some(y)) => Some(if x == y { SetItem::C(x) } else { SetItem::R(x, y) }),
+                                        _ => None,
+                                    }
+                                })
+                                .collect(),
+                        ),
+                        other => other.clone(),
+                    };
+                    let rules = match tp.next(4) {
+                        0 => vec![(plus(alt(s1, perturbed)), None), (Re::Any, None)],
+                        1 => vec![(plus(s1), None), (plus(perturbed), None), (Re::Any, None)],
+                        2 => vec![(cat(s1.clone(), Re::Char('!')), None), (cat(perturbed, Re::Char('?')), None), (plus(s1), None), (Re::Any, None)],
+                        _ => vec![(plus(diff(s1, perturbed)), None), (Re::Any, None)],
+                    };
+                    ("big-sets", simple_spec(rules, i % 10 < 5, vec![]))
+                }
+                0 | 1 => {
+                    let k = 8 + tp.next(7);
+                    let s0 = starts[tp.next(starts.len() as u32) as usize] as u32;
+                    let cs: Vec<char> = (0..k).filter_map(|d| char::from_u32(s0 + d)).collect();
+                    let class = if i % 4 == 0 {
+                        Re::Set(cs.iter().map(|c| SetItem::C(*c)).collect())
+                    } else {
+                        let mut it = cs.iter();
+                        let mut a = Re::Char(*it.next().unwrap());
+                        for c in it {
+                            a = alt(a, Re::Char(*c));
+                        }
+                        a
+                    };
+                    let rules = match tp.next(3) {
+                        0 => vec![(plus(class), None), (Re::Any, None)],
+                        1 => vec![(cat(Re::Char('x'), star(class)), None), (Re::Any, None)],
+                        _ => vec![(class, None), (Re::Any, None)],
+                    };
+                    ("consecutive-chars", simple_spec(rules, i % 8 < 4, vec![]))
+                }
+                2 => {
+                    let n = 17 + tp.next(24) as usize;
+                    let mut seen = std::collections::BTreeSet::new();
+                    let mut a: Option<Re> = None;
+                    while seen.len() < n {
+                        let w: String = sample(&kw, r).into_iter().collect();
+                        if seen.insert(w.clone()) {
+                            let leaf = if w.chars().count() == 1 && tp.next(2) == 0 { Re::Char(w.chars().next().unwrap()) } else { Re::Str(w) };
+                            a = Some(match a {
+                                None => leaf,
+                                Some(x) => alt(x, leaf),
+                            });
+                        }
+                    }
+                    let rules = vec![(cat(a.unwrap(), Re::Char(';')), None), (plus(Re::Set(vec![SetItem::R('a', 'e')])), None), (Re::Char(';'), None)];
+                    ("wide-alternation", simple_spec(rules, i % 8 < 4, vec![]))
+                }
+                _ => {
+                    // 17-40 scattered characters as one alternation: alone, and on either side of `#`
+                    let n = 17 + tp.next(24);
+                    let mut x = 0x21 + tp.next(8);
+                    let mut a: Option<Re> = None;
+                    for _ in 0..n {
+                        let leaf = Re::Char(char::from_u32(x).unwrap_or('a'));
+                        a = Some(match a {
+                            None => leaf,
+                            Some(y) => alt(y, leaf),
+                        });
+                        x += 1 + tp.next(3);
+                    }
+                    let a = a.unwrap();
+                    let class = match tp.next(3) {
+                        0 => a,
+                        1 => diff(Re::Set(vec![SetItem::R('!', '~')]), a),
+                        _ => diff(a, Re::Set(vec![SetItem::R('0', '9')])),
+                    };
+                    ("wide-alternation", simple_spec(vec![(plus(class), None), (Re::Any, None)], i % 8 < 4, vec![]))
+                }
+            };
+            spec.1.paren = oracle::spec::ParenStyle::Minimal;
+            out.push(spec);
+        }
+        // spell a third of all definitions with the fewest parentheses the grammar allows and a
+        // third with redundant ones (the trees, hence the reference languages, are the same)
+        for (k, (_, s)) in out.iter_mut().enumerate() {
+            match k % 3 {
+                1 => s.paren = oracle::spec::ParenStyle::Minimal,
+                2 => s.paren = oracle::spec::ParenStyle::Redundant((k as u64).wrapping_mul(0x9E37_79B9_7F4A_7C15)),
+                _ => {}
+            }
+        }
         out
     }
     fn cases(&self, ctx: &SpecCtx, _c: &mut Compiled, r: &mut TestRunner, tier: Tier) -> Vec<Case> {
@@ -254,6 +390,51 @@ impl Prop for C02 {
                 scripts_per_input: 1,
             },
         ));
+        // every code point next to an end point of a class of the definition, alone, doubled and
+        // after a member
+        let mut edge: Vec<char> = vec![];
+        let (max_pieces, max_edge) = if ctx.profile == "big-sets" { (100, 600) } else { (40, 120) };
+        for cl in _c.classes.iter() {
+            for &(lo, hi) in cl.0.iter().take(max_pieces) {
+                for v in [lo.wrapping_sub(1), lo, hi, hi.saturating_add(1)] {
+                    if let Some(ch) = char::from_u32(v) {
+                        if !edge.contains(&ch) && edge.len() < max_edge {
+                            edge.push(ch);
+                        }
+                    }
+                }
+            }
+        }
+        let member = edge.get(1).copied();
+        for &e in &edge {
+            cs.push(gen::simple_case(e.to_string(), vec![]));
+            cs.push(gen::simple_case(format!("{}{}", e, e), vec![]));
+            if let Some(m) = member {
+                cs.push(gen::simple_case(format!("{}{}{}", m, e, m), vec![]));
+                cs.push(gen::simple_case(format!("x{}{}", m, e), vec![]));
+            }
+        }
+        if ctx.profile == "wide-alternation" {
+            // every alternative on its own, and followed by the terminator
+            fn leaves(re: &Re, out: &mut Vec<String>) {
+                match re {
+                    Re::Alt(a, b) => {
+                        leaves(a, out);
+                        leaves(b, out);
+                    }
+                    Re::Cat(a, _) | Re::Plus(a) | Re::Diff(a, _) => leaves(a, out),
+                    Re::Str(s) => out.push(s.clone()),
+                    Re::Char(c) => out.push(c.to_string()),
+                    _ => {}
+                }
+            }
+            let mut ls = vec![];
+            leaves(&ctx.spec.rules()[0].re, &mut ls);
+            for l in ls {
+                cs.push(gen::simple_case(format!("{};", l), vec![]));
+                cs.push(gen::simple_case(format!("{}{};", l, l), vec![]));
+            }
+        }
         cs
     }
     fn judge(&self, ctx: &SpecCtx, v: &[Case], models: &[ModelOut], gots: &[Outcome]) -> Verdict {
